@@ -67,6 +67,10 @@ def encode(rng, fmt, rec, kfmt=None, custom=False):
         if mk and len(named_r) < 3:
             named_r.append(mk)
         rec["tmin"], rec["tmax"] = float(int(rec["tmin"])), float(int(rec["tmax"]))
+        if len(rec["p"]) < 5 and rng.random() < 0.25:
+            # the emitted photon of a radiative association / recombination is written among the PRODUCTS (any column, the last included)
+            rec["p"] = list(rec["p"])
+            rec["p"].insert(rng.randint(0, len(rec["p"])), "Photon")
         line = encoders.kida(dict(rec, r=named_r))
         vals = [f"{rec['a']:10.3e}", f"{rec['b']:10.3e}", f"{rec['c']:10.3e}", str(int(rec["tmin"])), str(int(rec["tmax"]))]
     elif fmt == "umist":
@@ -79,9 +83,10 @@ def encode(rng, fmt, rec, kfmt=None, custom=False):
     elif fmt == "leeds":
         rec["code"] = rng.choice(LEEDS_CODES)
         rec["a"] = rng.choice([6.59e-11, 4.67e-10, 1.0, 2.5e-9])
-        rec["b"] = rng.choice([0.0, 0.5, -0.5, -2.75])
-        rec["c"] = rng.choice([0.0, 10.0, -10.0, 30450.0, 1.5])
-        rec["tmin"], rec["tmax"] = rng.choice([(5.0, 41000.0), (10.0, 300.0), (0.0, 0.0)])
+        # (incl. values that fill their fixed-width column to the last character: 9 for beta, 10 for gamma, 5 for each limit)
+        rec["b"] = rng.choice([0.0, 0.5, -0.5, -2.75, -12345.67, 123456.78])
+        rec["c"] = rng.choice([0.0, 10.0, -10.0, 30450.0, 1.5, 12345678.9, -1234567.8])
+        rec["tmin"], rec["tmax"] = rng.choice([(5.0, 41000.0), (10.0, 300.0), (0.0, 0.0), (10000.0, 99999.0)])
         rec["idx"] = rng.choice([1, 42, 6599])
         if rec["code"] in (2, 3, 4) and len(named_r) < 3:
             named_r.append({2: "CRP", 3: "CRPHOT", 4: "PHOTON"}[rec["code"]])
